@@ -282,9 +282,6 @@ func (s *Sim) observe() {
 	if s.lockDepth < 60 {
 		for fi, f := range s.filters {
 			for w, fl := range []Filterer{f.A, f.B} {
-				if w == 0 && !fl.CanRegister() {
-					continue
-				}
 				q := fl.Query(nil)
 				var ls []int
 				for q.Next() {
